@@ -47,7 +47,7 @@ FLAGS = ["X_current_ = model residual", "model residual orthogonal to the select
          "pinv / lstsq hints satisfy their hypotheses",
          "importance vector at every refresh = model (eigen-hints valid)"]
 COUNTS = ["refresh_agree", "refresh_gated_gap", "refresh_gated_rcond", "refresh_hint_invalid",
-          "refresh_pi_differs", "warning_branch_pivots"]
+          "refresh_pi_differs", "warning_branch_pivots", "warm_guard_fires_in_model"]
 FLOATS = ["max|X_cur - X_current_|", "orth defect (model)", "orth defect (X_current_)",
           "max|y_cur - y_current_|", "worst y-hint residual/scale", "worst eigen-hint residual/scale",
           "max|pi - pi_impl|"]
@@ -124,8 +124,12 @@ def run(ctx):
         stats["oracle_gap_skipped"] += info["gap_skipped"]
         stats["oracle_tie_accepted"] += info["tie_accepted"]
         if msg:
-            C.report_violation(ctx, "C07 fails on the implementation: " + msg,
-                               dict(case=c, observed=slim(r)), found_input=True)
+            key = F.KEY_F28 if ("sel" in r and F.abs_guard_fires(c, r["sel"])) else None
+            stats["finding_F28_hits"] += key is not None
+            C.report_violation(ctx, "C07 fails on the implementation: " + msg
+                               + (" [warm start: residual of a selected item exceeds the absolute tolerance]"
+                                  if key else ""),
+                               dict(case=c, observed=slim(r)), key=key, found_input=True)
             reported.add(i)
         if r.get("refresh") is None and "error" not in r:
             stats["no_compute_pi_hook"] += 1
@@ -153,12 +157,13 @@ def run(ctx):
         elif i not in reported:
             broke = ([] if sched_ok else ["schedule / zeroing / arg-max (exact)"]) + \
                     [FLAGS[j] for j, b in enumerate(flags) if not b]
+            key = F.KEY_F28 if F.abs_guard_fires(c, r["sel"]) else None
             C.report_violation(
                 ctx, "correspondence CUR model vs implementation broken: %s (oracle accepts the output)"
                 % "; ".join(broke),
                 dict(case=c, observed=slim(r), correspondence=broke,
                      counts=dict(zip(COUNTS, counts)), deviations=dict(zip(FLOATS, floats))),
-                found_input=False)
+                key=key, found_input=False)
     missing = [i for i in range(len(cases)) if i not in reports and "error" not in ress[i]
                and ress[i].get("refresh") is not None]
     for txt in broken:
